@@ -440,6 +440,10 @@ pub fn eval_case(oracle_name: &'static str, f: Oracle, input: &Arc<Vec<u8>>, p: 
 	for s in &out.states {
 		local.states.insert(*s);
 	}
+	if out.states.is_empty() {
+		// pure-function and black-box oracles: a state is a distinct observation class
+		local.states.insert(out.obs);
+	}
 	local.outcomes.insert(out.obs);
 	let mut viol = out.viol;
 	if viol.is_none() && slept > 0 {
